@@ -20,6 +20,18 @@ def main():
         seed = int(os.environ.get('VERIF_SEED', '20260930'))
     except ValueError:
         seed = 20260930
+    if a.replay:
+        # a replay file records the seed and tier of the run that produced it: every random choice derives from
+        # Random("<pid>-<seed>"), so re-running with them reproduces the reported case (checks that can also re-run
+        # the single recorded input do so through ck.replay_in)
+        import json
+        try:
+            rp = json.load(open(a.replay))
+            seed = int(rp.get('seed', seed))
+            tier = rp.get('tier', tier) if rp.get('tier') in ('quick', 'thorough') else tier
+            print('replaying %s (kind: %s) with seed %d, tier %s' % (a.replay, rp.get('kind'), seed, tier))
+        except (OSError, ValueError) as e:
+            print('cannot read replay file: %s' % e, file=sys.stderr)
     logging.disable(logging.CRITICAL)
     ck = common.Check(a.pid, tier, seed, a.replay)
     mod = importlib.import_module('p' + a.pid)
